@@ -33,6 +33,18 @@ const (
 
 var c17NewBinlogMu sync.Mutex
 
+// c17CancelAt: "cancel this request context when execution reaches that verifhook point".  It is
+// set by a writer's callback (which runs under the engine's connection mutex) and consumed by the
+// hook observer in the same goroutine, so the expiry lands exactly between two steps of Do.
+type c17CancelReq struct {
+	hook   string
+	cancel context.CancelFunc
+}
+
+var c17CancelAt atomic.Pointer[c17CancelReq]
+
+var c17DoSteps = []string{"sqlite.do.after_user_fn", "sqlite.do.after_update_offset", "sqlite.do.after_binlog_append"}
+
 var errC17Callback = fmt.Errorf("c17: callback fails on purpose")
 
 func c17Event(s string, cache []byte) []byte {
@@ -174,17 +186,19 @@ func TestVerifC17Child(t *testing.T) {
 	switch role {
 	case "master":
 		var eng atomic.Pointer[Engine]
-		if marker != nil {
+		verifhook.SetObserver(func(name string, n int64) {
+			if rq := c17CancelAt.Load(); rq != nil && rq.hook == name {
+				c17CancelAt.Store(nil)
+				rq.cancel()
+			}
 			// syscall-level clause: at the moment of a SQLite COMMIT the engine position must be
 			// covered by an fsync of the binlog (see c17StraceCase)
-			verifhook.SetObserver(func(name string, n int64) {
-				if name == "sqlite.commit.before" {
-					if e := eng.Load(); e != nil && e.binlog != nil {
-						_, _ = marker.WriteString(fmt.Sprintf("B %d\n", e.dbOffset))
-					}
+			if marker != nil && name == "sqlite.commit.before" {
+				if e := eng.Load(); e != nil && e.binlog != nil {
+					_, _ = marker.WriteString(fmt.Sprintf("B %d\n", e.dbOffset))
 				}
-			})
-		}
+			}
+		})
 		e, err := c17Open(c17OpenOpt{dir: dir, db: "db", create: os.Getenv("VERIF_C17_CREATE") == "1", mode: mode, chunk: chunk, commitEvery: commitEvery})
 		if err != nil {
 			say("openerr %s\n", strings.ReplaceAll(err.Error(), "\n", " | "))
@@ -196,6 +210,7 @@ func TestVerifC17Child(t *testing.T) {
 		quota := int64(c17Env("VERIF_C17_QUOTA", 600))
 		failPct := c17Env("VERIF_C17_FAILPCT", 10)
 		bigPct := c17Env("VERIF_C17_BIGPCT", 5)
+		ctxPct := c17Env("VERIF_C17_CTXPCT", 8)
 		var acks atomic.Int64
 		stop := make(chan struct{})
 		var stopOnce sync.Once
@@ -218,6 +233,23 @@ func TestVerifC17Child(t *testing.T) {
 						kind = 1 + rng.IntN(3)
 						id = "F" + id
 					}
+					// kind 4: the request context expires somewhere inside Do; the outcome (error or
+					// nil) is whatever Do returns
+					ctx, cancel := context.Background(), context.CancelFunc(func() {})
+					ctxMode := -1
+					if kind == 0 && rng.IntN(100) < ctxPct {
+						kind = 4
+						id = "C" + id
+						ctxMode = rng.IntN(6)
+						switch ctxMode {
+						case 3: // short deadline, may expire before, inside or behind the callback
+							ctx, cancel = context.WithTimeout(context.Background(), time.Duration(20+rng.IntN(2500))*time.Microsecond)
+						default:
+							ctx, cancel = context.WithCancel(context.Background())
+						}
+					}
+					sibling := time.Duration(rng.IntN(1800)) * time.Microsecond
+					var myReq *c17CancelReq
 					short := id
 					if rng.IntN(100) < bigPct {
 						fill := make([]byte, 400+rng.IntN(3200))
@@ -227,11 +259,23 @@ func TestVerifC17Child(t *testing.T) {
 						id = id + "~" + string(fill)
 					}
 					say("call %s\n", short)
-					dbOff, _, err := e.DoWithOffset(context.Background(), "c17w", func(c Conn, _ []byte) ([]byte, error) {
+					dbOff, _, err := e.DoWithOffset(ctx, "c17w", func(c Conn, _ []byte) ([]byte, error) {
 						if kind == 2 {
 							return nil, errC17Callback
 						}
 						_, err := c.Exec("c17ins", "INSERT INTO test_db(t) VALUES ($t)", BlobString("$t", id))
+						if kind == 4 && err == nil {
+							switch {
+							case ctxMode < 3: // expiry exactly at a step of Do
+								myReq = &c17CancelReq{c17DoSteps[ctxMode], cancel}
+								c17CancelAt.Store(myReq)
+							case ctxMode >= 4: // a sibling goroutine cancels at a PRNG-chosen moment
+								go func() {
+									time.Sleep(sibling)
+									cancel()
+								}()
+							}
+						}
 						if kind == 1 {
 							return c17Event(id, cache), errC17Callback
 						}
@@ -241,9 +285,18 @@ func TestVerifC17Child(t *testing.T) {
 						cache = c17Event(id, cache)
 						return cache, err
 					})
+					if kind == 4 {
+						if myReq != nil {
+							c17CancelAt.CompareAndSwap(myReq, nil)
+						}
+						cancel()
+					}
 					switch {
 					case kind != 0 && err != nil:
 						say("failed %s\n", short)
+					case kind == 4:
+						say("ack %s\n", short)
+						acks.Add(1)
 					case kind != 0:
 						say("ERR %s failing callback returned nil\n", short)
 						return
